@@ -180,7 +180,11 @@ def absent_keywords(rng, name, cfg, db, n=3):
     for c in digests[:1] + cands + digests[1:]:
         if c and c[0] != 0 and len(c) <= limit and c not in db and c not in out:
             out.append(c)
-    return out[:n] if n else out
+    out = out[:n] if n else out
+    if name not in ("SSE1", "SSE2"):
+        # structured 32-byte values: what a deterministic stand-in for the random dummy keywords of the padding would be
+        out += [c for c in ((i).to_bytes(32, "big") for i in range(3)) if c not in db and c not in out]
+    return out
 
 
 def finalize_cfg(name, cfg, db):
@@ -190,6 +194,25 @@ def finalize_cfg(name, cfg, db):
         from schemes.CGKO06.SSE2.config import scan_database_and_update_config_dict
         scan_database_and_update_config_dict(cfg, db)
     return cfg
+
+
+MARK = b"\xfe<caller-owned>\xfe"
+
+
+def _take(r):
+    """the caller's view of a search result: a copy of what was returned — after which the caller USES the returned
+    container as its own (appends to it, as a caller merging the hits of several searches does).  A result object
+    shared between searches shows up in a later copy."""
+    x = r.get_result_list() if hasattr(r, "get_result_list") else r.result
+    snap = set(x) if isinstance(x, (set, frozenset)) else list(x)
+    try:
+        if isinstance(x, list):
+            x.append(MARK)
+        elif isinstance(x, set):
+            x.add(MARK)
+    except Exception:
+        pass
+    return snap
 
 
 def run_real(name, cfg, db, words, history=False):
@@ -211,7 +234,7 @@ def run_real(name, cfg, db, words, history=False):
         try:
             tk = scheme.TokenGen(key, w)
             r = scheme.Search(edb, tk)
-            res[w] = r.get_result_list() if hasattr(r, "get_result_list") else r.result
+            res[w] = _take(r)
         except Exception as e:
             res[w] = ("error", type(e).__name__, str(e)[:100])
     out = {"results": res, "scheme": scheme, "key": key, "edb": edb}
@@ -219,7 +242,7 @@ def run_real(name, cfg, db, words, history=False):
         def one(k, e, w):
             try:
                 r = scheme.Search(e, scheme.TokenGen(k, w))
-                return r.get_result_list() if hasattr(r, "get_result_list") else r.result
+                return _take(r)
             except Exception as ex:
                 return ("error", type(ex).__name__, str(ex)[:100])
         try:
